@@ -5543,6 +5543,41 @@ def symlink_to_bytes(symlink_target):
     return symlink_data
 
 
+def bytes_to_symlink(symlink_data):
+    # type: (bytes) -> str
+    """
+    Generate a Unix-like path from UDF symlink data (the inverse of
+    symlink_to_bytes).
+
+    Parameters:
+     symlink_data - The UDF data of the symlink (ECMA-167, Part 4, 14.16.1).
+    Returns:
+     The Unix-like path that the symlink points to.
+    """
+    comps = []  # type: List[str]
+    absolute = False
+    offset = 0
+    while offset + 4 <= len(symlink_data):
+        (comp_type, comp_len) = struct.unpack_from('=BB', symlink_data, offset)
+        ident = symlink_data[offset + 4:offset + 4 + comp_len]
+        offset += 4 + comp_len
+        if comp_type in (1, 2):
+            # The path starts again at the root.
+            absolute = True
+            comps = []
+        elif comp_type == 3:
+            comps.append('..')
+        elif comp_type == 4:
+            comps.append('.')
+        elif comp_type == 5:
+            if ident[:1] == b'\x10':
+                comps.append(ident[1:].decode('utf-16_be'))
+            else:
+                comps.append(ident[1:].decode('latin-1'))
+
+    return ('/' if absolute else '') + '/'.join(comps)
+
+
 def _parse_allocation_descriptors(flags, data, length, start_offset, extent):
     # type: (int, bytes, int, int, int) -> List[Union[UDFShortAD, UDFLongAD, UDFInlineAD]]
     """
